@@ -6,7 +6,7 @@ from __future__ import annotations
 import ast
 
 from ..cfg import CFG
-from ..core import AnalysisError, const_value, walk_own
+from ..core import callee_is, AnalysisError, const_value, walk_own
 from ..defuse import DefUse, Terms, show, walk_term
 from ..events import container_events, root_name
 from ..paths import var_leaves
@@ -292,7 +292,7 @@ def _read_fasta(ctx, f):
     T = Terms(du, phi_vars=True)
     evs = container_events(f.node, T, cfg)
     call = [n for n in ast.walk(f.node) if isinstance(n, ast.Call)
-            and ast.unparse(n.func) == "Proteins"]
+            and callee_is(prog, f, n, "Proteins")]
     ctx.require(len(call) == 1, f"{f.qual}: Proteins(...) not found")
     kw = {k.arg: T.of(k.value) for k in call[0].keywords}
     U, S, D = (root_name(kw.get(k, ("x",))) for k in (
